@@ -27,10 +27,12 @@ const (
 	aRestart
 	aByz
 	aReplay
+	aProbe
+	aRedeliver
 	numActs
 )
 
-var actNames = [...]string{"deliver", "drop", "dup", "timeout", "stale", "tick", "newtx", "supplytx", "badtx", "reset", "sync", "cut", "heal", "crash", "restart", "byz", "replay"}
+var actNames = [...]string{"deliver", "drop", "dup", "timeout", "stale", "tick", "newtx", "supplytx", "badtx", "reset", "sync", "cut", "heal", "crash", "restart", "byz", "replay", "probe", "redeliver"}
 
 // Profile is a scheduler strategy.
 type Profile struct {
@@ -65,6 +67,8 @@ type AsyncOpts struct {
 	ProfileOnly string // force a profile by name
 	// AvoidKnown lists known-finding keys whose triggering shape must not be produced.
 	Avoid map[string]bool
+	// Probes is the weight of C11 probe actions (0: none).
+	Probes int
 }
 
 // Async is the adversarial-asynchronous driver.
@@ -125,6 +129,7 @@ func RunAsync(w *World, o AsyncOpts) *Async {
 		}
 	}
 	a.P = profiles[pi]
+	a.P.W[aProbe], a.P.W[aRedeliver] = o.Probes, o.Probes/2
 	if w.FaultBudget > 0 {
 		a.P.W[aCrash] = max(a.P.W[aCrash], 3)
 		a.P.W[aRestart] = max(a.P.W[aRestart], 6)
@@ -218,6 +223,8 @@ func (a *Async) enabled(k int) bool {
 		return !a.O.NoByz && len(w.Byz) > 0
 	case aReplay:
 		return len(w.Sent) > 0
+	case aProbe, aRedeliver:
+		return len(w.Live()) > 0
 	}
 	return false
 }
@@ -440,6 +447,10 @@ func (a *Async) step() {
 		a.afterCall(n)
 	case aByz:
 		a.byz()
+	case aProbe:
+		a.probeInadmissible()
+	case aRedeliver:
+		a.probeRedeliver()
 	case aReplay:
 		p := w.Sent[a.r("sent", len(w.Sent))]
 		live := w.Live()
